@@ -20,6 +20,7 @@ RULE = (
     "alpha-renamed to match (through rename_inputs/output names, function parameters untouched); optional inner select. Flat and nested "
     "variants run on SyncRunner and on AsyncRunner under SimLoop (delays, max_concurrency: inner nodes compete for the same permits). "
     "Non-trivial = the cut crosses >=1 data edge or the group has a default/bound input; distinct = digest of (program shape, cut, renames, inputs)."
+    ' Also varied: the wrapper object is introspected / placed in a throw-away graph before it is renamed (object reuse), and the inner graph binds another value than the enclosing graph for the same name (the enclosing binding must win, as in the flat graph).'
 )
 ASSUMPTIONS = [
     "a nested variant the constructor rejects is discarded and counted (not judged): C19 owns constructor verdicts",
